@@ -108,6 +108,26 @@ def run(run):
                      "cursor_work": [table[k][n][1] for n in sizes if n in table.get(k, {})]} for k in list(table)[:4]],
                    extra={"families": list(FAMILIES), "worst_cursor_work_per_token": round(worst, 1)})
     run.add_stream("random statements and mutants", len(rnd), len(set(s for _, s in rnd)), [])
+    # text-level pre-passes (dialect shims, preproc_sql) run inside single library / builtin calls that no call counter sees: blank, comment and keyword runs
+    # next to the words the shims look for, each in its own process with a hard limit (they take milliseconds; the limit only separates "finishes" from "does not")
+    PRE = {"CURRENT then blanks then ROW": "SELECT sum(a) OVER (ORDER BY b ROWS BETWEEN 1 PRECEDING AND CURRENT" + " " * 70 + "ROW) FROM t",
+           "CURRENT then line break and indentation": "SELECT CURRENT\n" + " " * 64 + "\n" + "\t" * 16 + "x FROM t",
+           "CURRENT then comments": "SELECT CURRENT " + "/* c */ " * 40 + "z FROM t",
+           "CURRENT words": "SELECT " + ", ".join(["CURRENT  DATE", "CURRENT   TIME", "CURRENT"] * 30) + " FROM t",
+           "equal signs": "SELECT 1 FROM t WHERE a " + "= " * 70 + "1",
+           "quotes then ==": "SELECT " + ", ".join(["'a''b'", "\"x\"", "`y`"] * 30) + " FROM t WHERE a == 1 -- it's" + " '" * 41,
+           "CR runs": "SELECT a" + "\r" * 80 + "\n" + "\t" * 80 + "FROM" + "\u3000" * 80 + "t"}
+    code = ("import sys\nfrom metasequoia_sql import SQLParser, SQLType\nfor d in sys.argv[1].split(','):\n  for t in sys.argv[2:]:\n    try:\n      SQLParser.parse_statements(t, sql_type=SQLType[d])\n"
+            "    except RecursionError:\n      print('RECURSION')\n    except Exception:\n      pass\nprint('DONE')")
+    rc, out = core.sh([core.PY, "-c", code, "DB2,HIVE,DEFAULT,MYSQL"] + list(PRE.values()), env=core.impl_env(), timeout=60)
+    if "DONE" not in out:
+        for d in ("DB2", "HIVE", "DEFAULT"):
+            for name, t in PRE.items():
+                rc1, out1 = core.sh([core.PY, "-c", code, d, t], env=core.impl_env(), timeout=20)
+                if "DONE" not in out1:
+                    fails.append({"kind": "input", "stream": "pre-pass cost", "text": t, "dialect": d, "family": name, "request": "PRETIME %s %s" % (d, stmt.cps(t)),
+                                  "oracle_verdict": "parse_statements(%s) of a %d-character text (%s) does not finish within 20 s" % (d, len(t), name)})
+    run.add_stream("pre-pass cost", 4 * len(PRE), len(PRE), [{"family": k, "chars": len(v)} for k, v in list(PRE.items())[:3]])
     run.cov["rule"] = ("25 input patterns (lists, operator chains, rows, statements, nesting, joins, arms, DDL columns, long literals / comments / blanks, and near-miss "
                        "inputs that fail at the last token) at sizes n, 2n, 4n, ...; plus random statements and malformed mutants; counters are wrapped around "
                        "FSMMachine.handle and every TokenScanner method from outside, the token list is a counting list subclass, every Python-level call inside the library is counted by a profile hook; wall time is not asserted")
@@ -134,6 +154,10 @@ def run(run):
 
 def replay(path):
     def chk(obj):
+        if obj.get("stream") == "pre-pass cost":
+            code = ("import sys\nfrom metasequoia_sql import SQLParser, SQLType\ntry:\n  SQLParser.parse_statements(sys.argv[2], sql_type=SQLType[sys.argv[1]])\nexcept Exception:\n  pass\nprint('DONE')")
+            rc, out = core.sh([core.PY, "-c", code, obj["dialect"], obj["text"]], env=core.impl_env(), timeout=20)
+            return None if "DONE" in out else "does not finish within 20 s"
         a = core.run_impl([obj["request"]])[0]
         if not a.startswith("OK "):
             return a[:200]
